@@ -36,6 +36,7 @@ Junk == Row("junk", "none", 0, "")
 Base(f, nf, nc) == <<DFormat(f), DRow("good")>> \o [i \in 1..nf |-> FRow(i, "none")] \o [i \in 1..nc |-> CRow(i, "none")]
 
 (* ------------------------------ mutations: exactly one defect ------------------------------ *)
+Min(S) == CHOOSE m \in S : \A o \in S : m <= o
 InsertAt(s, pos, x) == SubSeq(s, 1, pos - 1) \o <<x>> \o SubSeq(s, pos, Len(s))
 RemoveAt(s, pos) == SubSeq(s, 1, pos - 1) \o SubSeq(s, pos + 1, Len(s))
 Idx(s, k) == {i \in 1..Len(s) : s[i].k = k}
@@ -59,7 +60,13 @@ Mutants(f, nf, nc) ==
 Decorate(rows, deco) ==
   LET cut == IF Len(rows) < 2 THEN Len(rows) ELSE 2
       withComments == IF "comments" \in deco THEN <<Comment>> \o SubSeq(rows, 1, cut) \o <<Comment>> \o SubSeq(rows, cut + 1, Len(rows)) ELSE rows
-  IN IF "blanks" \in deco THEN <<Blank>> \o withComments \o <<Blank>> ELSE withComments
+      \* a property row may also follow the fields and checks (only Format has to come first)
+      late == IF "late" \in deco /\ Len(withComments) >= 3 /\ \E i \in 1..Len(withComments) : withComments[i].tag = "good"
+              THEN LET g == Min({i \in 1..Len(withComments) : withComments[i].tag = "good"}) IN
+                   IF \E i \in 1..(g - 1) : withComments[i].tag = "format"
+                   THEN RemoveAt(withComments, g) \o <<withComments[g]>> ELSE withComments
+              ELSE withComments
+  IN IF "blanks" \in deco THEN <<Blank>> \o late \o <<Blank>> ELSE late
 
 (* ------------------------------ the machine ------------------------------ *)
 VARIABLES label, rows,       \* the case
@@ -109,7 +116,6 @@ Spec == Init /\ [][Next]_vars
 Ds(rs) == Idx(rs, "D")
 Fs(rs) == Idx(rs, "F")
 Cs(rs) == Idx(rs, "C")
-Min(S) == CHOOSE m \in S : \A o \in S : m <= o
 Sound(rs) ==
   /\ Ds(rs) # {} /\ rs[Min(Ds(rs))].tag = "format" /\ rs[Min(Ds(rs))].val # "unknownfmt"     \* first data-format row sets a known format
   /\ Cardinality({i \in Ds(rs) : rs[i].tag = "format"}) = 1                                  \* exactly once
